@@ -309,7 +309,7 @@ Definition capply (tm : bool) (a : cact) (ch : chan) : option (chan * list event
     | RdInit, UInit => Some (ch_un (ch_close_rwc (ch_ctxd ch)) UEnd, [])
     | _, _ => None
     end
-  | AEnq it => Some (ch_enq ch it, [])
+  | AEnq it => if registered ch && Nat.ltb (length (q ch)) qcap then Some (ch_enq ch it, []) else None
   | ACtxd => Some (ch_ctxd ch, [])
   end.
 
